@@ -53,7 +53,8 @@ func sameOrigin(a, b *url.URL) bool {
 // It assumes a non-nil Age pointer is provided.
 func SetAgeHeader(resp *http.Response, clock Clock, age *Age) {
 	adjusted := max(SatAdd(age.Value, clock.Since(age.Timestamp)), 0)
-	resp.Header.Set("Age", strconv.Itoa(int(adjusted.Seconds())))
+	// (64 bits also where int has 32: an Age of 2147483648 is a legal value)
+	resp.Header.Set("Age", strconv.FormatInt(int64(adjusted.Seconds()), 10))
 }
 
 // StripNoCacheFields removes the header fields named by a qualified no-cache
